@@ -211,6 +211,17 @@ pub fn plan(label: &str, profile: Profile, levels: usize, depth: usize) -> Plan 
     Plan { label: label.to_string(), profile, levels, depth, base: vec![] }
 }
 
+/// The same alphabet with "read everything" as an operation of its own: E1 replays a history
+/// without a single getter call between the operations and reads once at the end; with this
+/// operation every placement of reads inside a history is enumerated too (a structure refreshed
+/// lazily by a getter, or a cache filled by one and not invalidated by a later mutation).
+pub fn with_observe(out: &mut Vec<Plan>, label: &str, profile: &Profile, levels: usize, depth: usize) {
+    let mut p = profile.clone();
+    p.name = format!("{}+observe", p.name);
+    p.observe_op = true;
+    out.push(plan(&format!("{} + reading everything as an operation", label), p, levels, depth));
+}
+
 pub fn with_bases(out: &mut Vec<Plan>, label: &str, profile: &Profile, levels: usize, depth: usize) {
     for (name, base) in base_states(profile) {
         let mut p = profile.clone();
@@ -320,6 +331,13 @@ pub fn c01(tier: &str) -> i32 {
     rp.modify_prices = true;
     rp.modify_vols = vec![1, 3];
     plans.push(plan("core + modify (re-priced orders match by the same rules)", rp.clone(), 3, if t { 5 } else { 4 }));
+    {
+        let mut ob = rp.clone();
+        ob.prices = vec![10, 11];
+        ob.limit_vols = vec![2];
+        ob.market_vols = vec![1, 3];
+        with_observe(&mut plans, "two prices, re-pricing modifies", &ob, 3, if t { 6 } else { 5 });
+    }
     let mut rpe = rp.clone();
     rpe.name = "core-repricing-events-tick3".into();
     rpe.tick = 3;
@@ -425,6 +443,14 @@ pub fn c02(tier: &str) -> i32 {
         }
     }
     let main = mk("views-tick1", 1, 10);
+    {
+        let mut ob = main.clone();
+        ob.prices = vec![10, 11];
+        ob.limit_vols = vec![2];
+        ob.market_vols = vec![1];
+        ob.modify_vols = vec![1];
+        with_observe(&mut plans, "two prices, modify, toggles, reload", &ob, 10, if t { 6 } else { 5 });
+    }
     with_bases(&mut plans, "main tick 1", &main, 3, if t { 4 } else { 2 });
     // separate create / place with every request (modify, cancel, reload) also aimed at the
     // created-but-unplaced order
@@ -489,6 +515,15 @@ pub fn c03(tier: &str) -> i32 {
     p.toggles = true;
     p.reset_tv = true;
     plans.push(plan("core + modify + toggles + counter reset, tick 1", p.clone(), 3, if t { 5 } else { 4 }));
+    {
+        let mut ob = p.clone();
+        ob.prices = vec![10, 11];
+        ob.limit_vols = vec![2];
+        ob.market_vols = vec![1];
+        ob.modify_vols = vec![1];
+        ob.toggles = false;
+        with_observe(&mut plans, "two prices, modify, counter reset", &ob, 3, if t { 6 } else { 5 });
+    }
     let mut q = Profile::core("ledger-core", 1, 10);
     q.reset_tv = true;
     plans.push(plan("core + counter reset", q, 3, if t { 6 } else { 5 }));
@@ -585,6 +620,13 @@ pub fn c04(tier: &str) -> i32 {
     let mut core = Profile::core("lifecycle-core", 1, 10);
     core.set_time_op = true;
     plans.push(plan("core + set_time", core, 3, if t { 6 } else { 5 }));
+    {
+        let mut ob = p.clone();
+        ob.modify_vols = vec![1];
+        ob.market_vols = vec![1];
+        ob.set_time_op = false;
+        with_observe(&mut plans, "every request on every id", &ob, 3, if t { 6 } else { 5 });
+    }
     with_bases(&mut plans, "lifecycle", &p, 3, if t { 4 } else { 2 });
     with_big_bases(&mut plans, "lifecycle", &p, 3, if t { 3 } else { 2 });
     let mut mg = Profile::magnitude("lifecycle-magnitudes");
@@ -678,6 +720,11 @@ pub fn c06(tier: &str) -> i32 {
     p2.market_vols = vec![1];
     p2.modify_vols = vec![1, 2, 3];
     plans.push(plan("reduced alphabet, deeper", p2.clone(), 3, if t { 6 } else { 5 }));
+    {
+        let mut ob = p2.clone();
+        ob.modify_vols = vec![1, 3];
+        with_observe(&mut plans, "reduced alphabet", &ob, 3, if t { 6 } else { 5 });
+    }
     let mut p3 = p.clone();
     p3.name = "modify-tick3-events".into();
     p3.tick = 3;
@@ -808,6 +855,14 @@ pub fn c13(tier: &str) -> i32 {
     let mut pc = Profile::core("toggles-core", 1, 10);
     pc.toggles = true;
     plans.push(plan("core + toggles", pc, 3, if t { 6 } else { 5 }));
+    {
+        let mut ob = p.clone();
+        ob.prices = vec![10, 11];
+        ob.limit_vols = vec![2];
+        ob.market_vols = vec![1];
+        ob.modify_vols = vec![];
+        with_observe(&mut plans, "two prices, re-pricing modifies, toggles", &ob, 3, if t { 6 } else { 5 });
+    }
     // long histories in a minimal alphabet (one volume, no market orders): books crossed by a
     // placement or by a modification while trading is off, re-enabled, then every re-pricing -
     // also one that moves away from the touch but still crosses
